@@ -2,7 +2,7 @@
    the entry set the way the abstract directory says; hence (Canon.ser_unique) the serialized form after any history
    is the one the builder of this library writes for the final entry set, and (RefineAny) the reader of this library
    reads it as exactly that set. *)
-From UV Require Import Dir.BuildProofs Hamt.Read Hamt.HashBitsSpec Hamt.TrieProofs Hamt.ShardDecode Hamt.Refine Hamt.Canon Hamt.RefineAny Hamt.RefModel.
+From UV Require Import Dir.BuildProofs Hamt.Read Hamt.HashBitsSpec Hamt.TrieProofs Hamt.ShardDecode Hamt.Refine Hamt.Canon Hamt.RefineAny Hamt.BuildTotal Hamt.RefineTrace Hamt.RefineLength Hamt.RefModel.
 From Coq Require Import Permutation ZifyN ZifyNat ZifyBool.
 Local Open Scope N_scope.
 
@@ -549,6 +549,77 @@ Proof.
     inversion Ey; subst. apply Hm. exact Hin.
   - intros k Hno. apply Ha. intros Hin. apply in_map_iff in Hin. destruct Hin as (e & <- & Hin).
     apply (Hno (e_target e)). apply (Permutation_in _ (Permutation_sym Hi)). apply in_map_iff. exists e. split; [reflexivity|exact Hin].
+Qed.
+
+(* ---- the bridge: BuildUnixFSShardedDirectory SUCCEEDS on the final entry set of any reference history and returns the very
+   root block and cumulative size the reference wrote.  Everything proved about directories built by this library therefore
+   holds of reference-written ones, whatever their history. ---- *)
+Theorem ref_history_is_the_built_directory size lg (Hperm : permitted size lg) (H : bytes -> bytes)
+  (H_wf : forall k, wf_bytes (H k) = true) (H_len : forall k, length (H k) = 8%nat) fuel ops t :
+  Forall (hop_ok H) ops -> hrun lg fuel ops = Ok t ->
+  Forall (entry_ok H) (mrun ops) /\ NoDup (map e_name (mrun ops)) /\
+  build_sharded size HashMurmur3 (mrun ops) = Ok (serialize_node size HashMurmur3 (pad_len size) (BShard t)).
+Proof.
+  intros Hops Hr.
+  destruct (history_spec size lg Hperm H H_wf H_len fuel ops t Hops Hr) as (Hw & Hk & Hm & Hn & Hp).
+  assert (Hem : Forall (entry_ok H) (mrun ops)).
+  { apply Forall_forall. intros e Hin. apply (bok_entry size H (BShard t) e Hk).
+    eapply Permutation_in; [apply Permutation_sym; exact Hp|exact Hin]. }
+  split; [exact Hem|]. split; [exact Hn|].
+  assert (Hlg : 1 <= lg <= 64) by (destruct Hperm as [_ Hl]; lia).
+  assert (Hsep : separated lg (mrun ops)).
+  { intros x y Hx Hy Hne. apply (trie_sep lg Hlg (BShard t) 0 x y Hw).
+    - intros e Hi. apply (entry_hok H H_wf H_len). apply (bok_entry size H (BShard t) e Hk Hi).
+    - eapply Permutation_in; [apply Permutation_sym; exact Hp|exact Hx].
+    - eapply Permutation_in; [apply Permutation_sym; exact Hp|exact Hy].
+    - exact Hne. }
+  destruct (separated_builds size lg Hperm H H_wf H_len (mrun ops) Hem (NoDup_map_inv e_name _ Hn) Hsep) as (cs & Ea).
+  assert (Hb : exists r, build_sharded size HashMurmur3 (mrun ops) = Ok r).
+  { unfold build_sharded. rewrite (log2_exact_permitted size lg Hperm), Ea. cbn [bind].
+    assert (E8 : size mod 8 =? 0 = true).
+    { destruct (permitted_cases _ _ Hperm) as [E|[E|[E|[E|[E|[E|[E|E]]]]]]]; clear - E; destruct E as [-> ->]; reflexivity. }
+    rewrite E8. cbn [negb]. eexists. reflexivity. }
+  destruct Hb as (r & Hb). rewrite Hb. f_equal.
+  apply (proj2 (proj2 (proj2 (proj2 (proj2 (ref_history_read size lg Hperm H H_wf H_len fuel ops t Hops Hr))))) r Hb).
+Qed.
+
+(* two instances.  Lookups in a reference-written shard under ANY availability of the blocks: the requests are a key-determined
+   path of at most one shard per hash level, the first unavailable one gives its load error (never not-found), otherwise the
+   answer is the abstract directory's *)
+Corollary ref_history_lookup_requests size lg (Hperm : permitted size lg) (H : bytes -> bytes)
+  (H_wf : forall k, wf_bytes (H k) = true) (H_len : forall k, length (H k) = 8%nat) fuel ops t :
+  Forall (hop_ok H) ops -> hrun lg fuel ops = Ok t ->
+  let root := fst (serialize_node size HashMurmur3 (pad_len size) (BShard t)) in
+  forall key, exists path : list blk,
+    (N.of_nat (length path) + 1) * lg <= 64 /\
+    forall fault,
+      lookup fault root (H key) key =
+      match first_fault fault path with
+      | Some (e, tr) => (Err e, tr)
+      | None => (match find (fun e => bytes_eqb (e_name e) key) (mrun ops) with Some e => Ok (e_target e) | None => Err ENotFound end, path)
+      end.
+Proof.
+  intros Hops Hr root key.
+  destruct (ref_history_is_the_built_directory size lg Hperm H H_wf H_len fuel ops t Hops Hr) as (Hem & Hn & Hb).
+  destruct (serialize_node size HashMurmur3 (pad_len size) (BShard t)) as [rt sz] eqn:Es. subst root. cbn [fst].
+  exact (sharded_lookup_requests size lg Hperm H H_wf H_len (mrun ops) rt sz Hem Hn Hb key).
+Qed.
+
+(* iteration of a reference-written shard under ANY availability: an entry is yielded (once) exactly when looking it up succeeds *)
+Corollary ref_history_iterate_under_faults size lg (Hperm : permitted size lg) (H : bytes -> bytes)
+  (H_wf : forall k, wf_bytes (H k) = true) (H_len : forall k, length (H k) = 8%nat) fuel ops t :
+  Forall (hop_ok H) ops -> hrun lg fuel ops = Ok t ->
+  let root := fst (serialize_node size HashMurmur3 (pad_len size) (BShard t)) in
+  forall fault,
+    let evs := map snd (iterate fault root) in
+    (forall e, In e (mrun ops) -> (In (yield_of e) evs <-> fst (lookup fault root (H (e_name e)) (e_name e)) = Ok (e_target e)))
+    /\ (forall k v, In (IYield k v) evs -> exists e, In e (mrun ops) /\ e_name e = k /\ e_target e = v)
+    /\ NoDup (filter is_yield evs).
+Proof.
+  intros Hops Hr root fault.
+  destruct (ref_history_is_the_built_directory size lg Hperm H H_wf H_len fuel ops t Hops Hr) as (Hem & Hn & Hb).
+  destruct (serialize_node size HashMurmur3 (pad_len size) (BShard t)) as [rt sz] eqn:Es. subst root. cbn [fst].
+  exact (sharded_iterate_under_faults size lg Hperm H H_wf H_len (mrun ops) rt sz Hem Hn Hb fault).
 Qed.
 
 (* non-vacuity: a history with a fork, a replacement, a removal that collapses a sub-shard and a removal of an absent name *)
